@@ -16,6 +16,8 @@
 (*   regs : regression vectors with a large common offset (f32: 2^11, 2^16, 2^20; f64: 1e6, 1e9,     *)
 (*          2^40) and integer or 1/8 spreads -- exactly representable, ill-conditioned for          *)
 (*          uncentered formulas; the oracle works on the un-shifted integers (shift invariance)     *)
+(*   sil (wide, tag "silwide"): 3 and 4 clusters of unequal sizes where the other cluster with the     *)
+(*          smallest total distance differs from the one with the smallest mean distance            *)
 (*   pear (wide, tag "pearwide"): 4..6 columns chosen from a pool of eight (see PearPool)            *)
 (*   rocu : scores that are neighbouring f32 values: the case carries integer ranks and a base,    *)
 (*          the harness maps rank r to 1/2 + r 2^-24 ("half"), r 2^-30 ("zero"), 1 - r 2^-24       *)
@@ -75,6 +77,40 @@ InitSil ==
     /\ \E kk \in SilKs : \E lv \in Vecs(nn, 0, kk - 1) :
          /\ SilOk(xv, lv, kk)
          /\ case = [kind |-> "sil", inp |-> [pos |-> xv, lab |-> lv, perm |-> Rot(nn)]]
+
+\* 3 and 4 clusters of UNEQUAL sizes on a line (generator tag "silwide"): cluster c holds sizes[c] consecutive integer
+\* positions, separated from the previous cluster by gaps[c]; kept only if for some sample the other cluster with the
+\* smallest TOTAL distance is not the one with the smallest MEAN distance (strictly), i.e. the "nearest cluster" of the
+\* silhouette must be chosen by the mean -- with equal sizes or two clusters the two choices coincide.
+RECURSIVE SumTo(_, _)
+SumTo(sq, c) == IF c = 0 THEN 0 ELSE sq[c] + SumTo(sq, c - 1)
+WideStart(sizes, gaps, c) == SumTo(sizes, c - 1) + SumTo(gaps, c - 1)       \* gaps[c] precedes cluster c + 1
+WidePos(sizes, gaps) ==
+  [q \in 1..SumTo(sizes, Len(sizes)) |->
+     LET c == CHOOSE cc \in 1..Len(sizes) : SumTo(sizes, cc - 1) < q /\ q <= SumTo(sizes, cc)
+     IN WideStart(sizes, gaps, c) + (q - SumTo(sizes, c - 1) - 1)]
+WideLab(sizes) ==
+  [q \in 1..SumTo(sizes, Len(sizes)) |->
+     (CHOOSE cc \in 1..Len(sizes) : SumTo(sizes, cc - 1) < q /\ q <= SumTo(sizes, cc)) - 1]
+AbsD(x, y) == IF x < y THEN y - x ELSE x - y
+TotTo(xv, lv, i, cl) == LET idx == {q \in 1..Len(xv) : lv[q] = cl}
+                            RECURSIVE Acc(_)
+                            Acc(ss) == IF ss = {} THEN 0 ELSE LET q == CHOOSE q \in ss : TRUE IN AbsD(xv[i], xv[q]) + Acc(ss \ {q})
+                        IN Acc(idx)
+CntOf(lv, cl) == Cardinality({q \in 1..Len(lv) : lv[q] = cl})
+TotalMeanDisagree(xv, lv) ==
+  \E i \in 1..Len(xv) : \E cj, ck \in Range(lv) \ {lv[i]} :
+    /\ cj # ck
+    /\ \A cm \in Range(lv) \ {lv[i], cj} : TotTo(xv, lv, i, cj) < TotTo(xv, lv, i, cm)          \* cj: strictly smallest total
+    /\ TotTo(xv, lv, i, ck) * CntOf(lv, cj) < TotTo(xv, lv, i, cj) * CntOf(lv, ck)             \* ck: strictly smaller mean
+InitSilWide ==
+  \E kk \in {3, 4} :
+  \E sizes \in [1..kk -> IF kk = 3 THEN {2, 3, 5} ELSE {2, 4}], gaps \in [1..kk -> IF kk = 3 THEN {1, 2, 4, 7} ELSE {1, 4}] :
+    /\ gaps[kk] = 1                                                                          \* unused last gap
+    /\ \E c \in 2..kk : sizes[c] # sizes[1]
+    /\ TotalMeanDisagree(WidePos(sizes, gaps), WideLab(sizes))
+    /\ case = [kind |-> "sil", inp |-> [pos |-> WidePos(sizes, gaps), lab |-> WideLab(sizes),
+                                        perm |-> Rot(SumTo(sizes, kk))]]
 
 NonConst(cv) == \E q \in 1..Len(cv) : cv[q] # cv[1]
 InitPear ==
@@ -144,6 +180,7 @@ InitRocu ==
     /\ case = [kind |-> "rocu", inp |-> [rank |-> rv, base |-> bs, truth |-> tv, perm |-> Rot(nn)]]
 
 Init ==
+  \/ "silwide" \in Kinds /\ InitSilWide
   \/ "regs" \in Kinds /\ InitRegs
   \/ "pearwide" \in Kinds /\ InitPearWide
   \/ "reglong" \in Kinds /\ InitRegLong
